@@ -14,6 +14,7 @@
 
 mod dynmem;
 mod port;
+mod rrdyn;
 
 use std::alloc::Layout;
 use std::panic::{catch_unwind, AssertUnwindSafe};
@@ -96,6 +97,7 @@ pub enum Cfg {
     Alloc(ACfg),
     Port(port::PCfg),
     Dyn(dynmem::DCfg),
+    RrDyn(rrdyn::RCfg),
 }
 
 #[derive(Clone, Debug, Serialize, Deserialize)]
@@ -111,6 +113,7 @@ pub enum Op {
     Reset,
     Port(port::POp),
     Dyn(dynmem::DOp),
+    RrDyn(rrdyn::ROp),
 }
 
 struct Buf {
@@ -181,6 +184,7 @@ pub enum Sys {
     Alloc(Box<AShell>),
     Port(Box<port::PSys>),
     Dyn(Box<dynmem::DSys>),
+    RrDyn(Box<rrdyn::RSys>),
 }
 
 fn align_up(v: usize, a: usize) -> usize {
@@ -840,7 +844,7 @@ fn alloc_apply(s: &mut ASys, op: &Op) -> Result<(), Fail> {
             s.cursor = 0;
             s.check_memory("reset")
         }
-        Op::Port(_) | Op::Dyn(_) | Op::Setup { .. } => unreachable!(),
+        Op::Port(_) | Op::Dyn(_) | Op::RrDyn(_) | Op::Setup { .. } => unreachable!(),
     }
 }
 
@@ -1034,14 +1038,23 @@ impl Harness for H {
         "h_alloc"
     }
     fn property(&self) -> &'static str {
-        "C15"
+        // `--prop C02`: only the request-response family (d), attributed to C02
+        if seqx::selected_property().as_deref() == Some("C02") {
+            "C02"
+        } else {
+            "C15"
+        }
     }
     fn rule(&self) -> String {
-        "(a) the first operation of every sequence builds the allocator over one of the region geometries of the configuration (start misaligned by 0/1/align-1, room for 0..4 buckets plus a partial one), followed by every sequence of allocate(size in {0,1,b-1,b,b+1} x align in {1,a,2a}) / allocate_zeroed / deallocate(k-th live) / grow / shrink / reset up to the tree depth on the real PoolAllocator, FixedSizePoolAllocator<2|8>, bb BumpAllocator, OneChunkAllocator, cal shm PoolAllocator and shm BumpAllocator for every bucket layout (sizes 1..33 and 100/128/4096 x alignments 1..64 and 4096, including sizes that are not multiples of the alignment), checked after every step against an interval model: inside the region, requested alignment, requested size writable (unique byte pattern per allocation, all live patterns and the guard zones verified after every step), pairwise disjoint, success iff the model has a free bucket / enough room, documented error variant otherwise, everything allocatable again after release. (b) every sequence of loan_slice(len in {1,2,5,9}; quick tier with a dynamic strategy: {1,5,9} / {5,9})+send / receive / drop held sample on a local publish-subscribe service with [u8] or [u64] payload, initial_max_slice_len(1) and AllocationStrategy Static/BestFit/PowerOfTwo: every held sample stays byte-identical across growth of the data segment, samples received after growth are correct, Static refuses a longer loan with ExceedsMaxLoanSize. (c) every sequence of allocate(size in {c, 2c+1, 8c}) / deallocate(k-th live) / grow(k-th live, to the next larger sizes) on the real resizable shared memory DynamicMemory<PoolAllocator> (process-local and posix shared memory; chunk hint c in {8,16}, 1..2 chunks hint; Static / BestFit / PowerOfTwo) with up to 4 live chunks: live chunks pairwise disjoint in memory (also across segments), 8-byte aligned, content of every live chunk intact after every step, grown chunk keeps its content, dynamic strategies never fail, Static refuses what exceeds the hints, everything allocatable again after release. A distinct state is the canonical model state (live allocations relative to the region start / queue and held samples).".into()
+        "(a) the first operation of every sequence builds the allocator over one of the region geometries of the configuration (start misaligned by 0/1/align-1, room for 0..4 buckets plus a partial one), followed by every sequence of allocate(size in {0,1,b-1,b,b+1} x align in {1,a,2a}) / allocate_zeroed / deallocate(k-th live) / grow / shrink / reset up to the tree depth on the real PoolAllocator, FixedSizePoolAllocator<2|8>, bb BumpAllocator, OneChunkAllocator, cal shm PoolAllocator and shm BumpAllocator for every bucket layout (sizes 1..33 and 100/128/4096 x alignments 1..64 and 4096, including sizes that are not multiples of the alignment), checked after every step against an interval model: inside the region, requested alignment, requested size writable (unique byte pattern per allocation, all live patterns and the guard zones verified after every step), pairwise disjoint, success iff the model has a free bucket / enough room, documented error variant otherwise, everything allocatable again after release. (b) every sequence of loan_slice(len in {1,2,5,9}; quick tier with a dynamic strategy: {1,5,9} / {5,9})+send / receive / drop held sample on a local publish-subscribe service with [u8] or [u64] payload, initial_max_slice_len(1) and AllocationStrategy Static/BestFit/PowerOfTwo: every held sample stays byte-identical across growth of the data segment, samples received after growth are correct, Static refuses a longer loan with ExceedsMaxLoanSize. (c) every sequence of allocate(size in {c, 2c+1, 8c}) / deallocate(k-th live) / grow(k-th live, to the next larger sizes) on the real resizable shared memory DynamicMemory<PoolAllocator> (process-local and posix shared memory; chunk hint c in {8,16}, 1..2 chunks hint; Static / BestFit / PowerOfTwo) with up to 4 live chunks: live chunks pairwise disjoint in memory (also across segments), 8-byte aligned, content of every live chunk intact after every step, grown chunk keeps its content, dynamic strategies never fail, Static refuses what exceeds the hints, everything allocatable again after release. (d) request-response with a dynamically growing response segment (BestFit / PowerOfTwo, initial_max_slice_len 1): after a checked prefix (two clients have sent a request each, the server holds both active requests) every sequence of respond(client, len in {1, 9[, 40]}) / receive(client) / release(client, k) / client vanishes / drop active request / Server::receive as connection update: every response received carries exactly the written bytes, held responses stay intact, a queued response of one client survives the disappearance of the other client and the server's clean-up, nothing panics (with --prop C02 this family alone, attributed to C02). A distinct state is the canonical model state (live allocations relative to the region start / queue and held samples).".into()
     }
     fn configs(&self, tier: Tier) -> Vec<(Cfg, Plan)> {
+        if self.property() == "C02" {
+            return rrdyn::configs(tier, true).into_iter().map(|(c, p)| (Cfg::RrDyn(c), p)).collect();
+        }
         // the port-level workers run longest: queue them first
-        let mut v: Vec<(Cfg, Plan)> = port::configs(tier).into_iter().map(|(c, p)| (Cfg::Port(c), p)).collect();
+        let mut v: Vec<(Cfg, Plan)> = rrdyn::configs(tier, false).into_iter().map(|(c, p)| (Cfg::RrDyn(c), p)).collect();
+        v.extend(port::configs(tier).into_iter().map(|(c, p)| (Cfg::Port(c), p)));
         v.extend(dynmem::configs(tier).into_iter().map(|(c, p)| (Cfg::Dyn(c), p)));
         v.extend(alloc_configs(tier));
         v
@@ -1054,6 +1067,7 @@ impl Harness for H {
             }
             Cfg::Port(c) => Ok(Sys::Port(Box::new(port::new_sys(c)?))),
             Cfg::Dyn(c) => Ok(Sys::Dyn(Box::new(dynmem::new_sys(c)?))),
+            Cfg::RrDyn(c) => Ok(Sys::RrDyn(Box::new(rrdyn::new_sys(c)?))),
         }
     }
     fn enabled(&self, s: &Sys) -> Vec<Op> {
@@ -1064,6 +1078,7 @@ impl Harness for H {
             },
             Sys::Port(s) => port::enabled(s).into_iter().map(Op::Port).collect(),
             Sys::Dyn(s) => dynmem::enabled(s).into_iter().map(Op::Dyn).collect(),
+            Sys::RrDyn(s) => rrdyn::enabled(s).into_iter().map(Op::RrDyn).collect(),
         }
     }
     fn apply(&self, s: &mut Sys, op: &Op) -> Result<(), Fail> {
@@ -1077,6 +1092,7 @@ impl Harness for H {
             (Sys::Alloc(sh), op) => alloc_apply(sh.sys.as_mut().expect("Setup is the first operation"), op),
             (Sys::Port(s), Op::Port(op)) => port::apply(s, op),
             (Sys::Dyn(s), Op::Dyn(op)) => dynmem::apply(s, op),
+            (Sys::RrDyn(s), Op::RrDyn(op)) => rrdyn::apply(s, op),
             _ => unreachable!(),
         }
     }
@@ -1088,6 +1104,7 @@ impl Harness for H {
             },
             Sys::Port(s) => port::finish(*s),
             Sys::Dyn(s) => dynmem::finish(*s),
+            Sys::RrDyn(s) => rrdyn::finish(*s),
         }
     }
     fn model_key(&self, s: &Sys) -> u64 {
@@ -1101,6 +1118,7 @@ impl Harness for H {
             },
             Sys::Port(s) => port::model_key(s),
             Sys::Dyn(s) => dynmem::model_key(s),
+            Sys::RrDyn(s) => rrdyn::model_key(s),
         }
     }
     fn nontrivial(&self, s: &Sys) -> bool {
@@ -1108,6 +1126,7 @@ impl Harness for H {
             Sys::Alloc(sh) => sh.sys.as_ref().map(|s| !s.live.is_empty() || s.cursor > 0).unwrap_or(false),
             Sys::Port(s) => port::nontrivial(s),
             Sys::Dyn(s) => dynmem::nontrivial(s),
+            Sys::RrDyn(s) => rrdyn::nontrivial(s),
         }
     }
 }
